@@ -148,6 +148,17 @@ prop('C20', 'other',
      'outside; float(repr(x)) == x trusted.',
      'CrossHair + path-forking symbolic execution + z3 string theory', 'DESIGN.md 3/C20')
 
+prop('C19', 'other',
+     'Real GroupBase.get_next_idx/add/find_idx, ModelData.find_idx, System.collect_ref/set_backref, DeviceFinder.find_or_add and '
+     'System.setup executed under pysym with SYMBOLIC index and field values (numbers whose coincidences z3 splits): indices of 3 '
+     'successive additions are pairwise distinct and a free proposed index is kept; find results are exactly the devices whose field '
+     'equals the query across both models of a group; back-reference lists hold exactly the referrers once each at model and group '
+     'level; helpers are created at most once per missing target and measure the right bus; a dangling required reference is '
+     'reported. Thorough adds CrossHair on string indices (length <= 3).',
+     'symbolic indices are numbers (generated ones are strings); idx dictionaries answer symbolic look-ups by equality split (stub); '
+     '3 additions, 2 models x 3 devices, 3 referrers.',
+     'path-forking symbolic execution of the real index/reference code + z3', 'DESIGN.md 3/C19')
+
 ORDER = ['C%02d' % i for i in range(1, 21)]
 checks, na = [], []
 for pid in ORDER:
